@@ -325,7 +325,7 @@ def canon_actions(def_ls, dd):
     except (ValueError, IndexError):
         return def_ls, dd
     if d_idx == list(range(len(d_idx))):
-        return def_ls, dd                       # the numbering of the model: nothing to do
+        return def_ls, canon_contexts(def_ls, dd)       # the action numbering of the model: nothing to rename
     users = {}
     for k, v in enumerate(d_idx):
         users.setdefault(v, []).append(k)
@@ -358,7 +358,111 @@ def canon_actions(def_ls, dd):
         body.append(l if in_ctx else _rewrite_acc_values(l, lambda v: canon_of_dumped.get(v, v)))
     dd2['body'] = body
     dd2['actions_renamed'] = True
-    return renum(def_ls, True), dd2
+    dls2 = renum(def_ls, True)
+    return dls2, canon_contexts(dls2, dd2)
+
+
+def _acc_pairs(line):
+    """(start index of the pairs, count) of the accept list of a dump line, or None"""
+    w = line.split()
+    if not w:
+        return None
+    if w[0] == 'acc':
+        i = 1
+    elif w[0] in ('ch', 'rg', 'any', 'eoi') and 'a' in w[1:]:
+        i = w.index('a', 1) + 1
+    else:
+        return None
+    try:
+        return w, i + 1, int(w[i])
+    except (ValueError, IndexError):
+        return None
+
+
+def canon_contexts(def_ls, dd):
+    """Right-context automata are referred to by number. The model gives every rule with a right context its own automaton, numbered in source
+    order; the macro may compile equal contexts once and share the automaton (fewer automata, other numbers) — no property forbids that. When
+    the dump has a different number of context automata than the definition has contexts, rebuild the dump in the model's numbering: the rule
+    with action index v (accept entries `v j`) uses dumped automaton j; it gets the number m(v) the model gives it and a copy of automaton j
+    under that number. Only done when every action index with a context is used by exactly one rule and always appears with the same dumped
+    automaton; otherwise the dump is left alone (and the disagreement surfaces). Whether automaton j really decides the context of rule v is
+    then checked as always: `bisim.ctx` compares automaton m of the model with (the copy of) automaton j."""
+    if not dd or not dd.get('body'):
+        return dd
+    rules = [l.split() for l in def_ls if ' rule ' in ' ' + l]
+    ctx_rules = []                                   # action index of every rule with a context, in source order
+    for w in rules:
+        if 'ctx' in w:
+            ctx_rules.append(int(w[w.index('rule') + 2]))
+    tags = [l.split()[1] for l in dd['body'] if l.startswith('DFA ')]
+    n_dumped = len([t for t in tags if t.startswith('ctx')])
+    if n_dumped == len(ctx_rules) or not ctx_rules or len(set(ctx_rules)) != len(ctx_rules):
+        return dd
+    model_no = {v: m for m, v in enumerate(ctx_rules)}
+    used = {}
+    in_ctx = False
+    for l in dd['body']:
+        if l.startswith('DFA '):
+            in_ctx = l.split()[1].startswith('ctx')
+            continue
+        if in_ctx:
+            continue
+        ap = _acc_pairs(l)
+        if ap:
+            w, i, n = ap
+            for k in range(n):
+                v, j = int(w[i + 2 * k]), int(w[i + 2 * k + 1])
+                if j >= 0:
+                    used.setdefault(v, set()).add(j)
+    if set(used) - set(model_no) or any(len(js) != 1 for js in used.values()):
+        return dd
+    dumped_of = {v: next(iter(js)) for v, js in used.items()}
+    if any(j >= n_dumped for j in dumped_of.values()):
+        return dd
+    # sections
+    sections, cur, pre, post = {}, None, [], []
+    seen_ctx = False
+    for l in dd['body']:
+        if l.startswith('DFA ') and l.split()[1].startswith('ctx'):
+            cur = l.split()[1]
+            sections[cur] = [l]
+            seen_ctx = True
+        elif cur is not None:
+            sections[cur].append(l)
+            if l == 'ENDDFA':
+                cur = None
+        elif not seen_ctx:
+            pre.append(l)
+        else:
+            post.append(l)
+
+    def ren(l):
+        ap = _acc_pairs(l)
+        if not ap:
+            return l
+        w, i, n = ap
+        for k in range(n):
+            v, j = int(w[i + 2 * k]), int(w[i + 2 * k + 1])
+            if j >= 0:
+                w[i + 2 * k + 1] = str(model_no[v])
+        return ' '.join(w)
+    body = [ren(l) for l in pre]
+    for m, v in enumerate(ctx_rules):
+        j = dumped_of.get(v)
+        if j is None:
+            return dd                                # a rule with a context that never became an accept entry: leave the dump alone
+        sec = sections.get('ctx%d' % j)
+        if not sec:
+            return dd
+        hdr = sec[0].split()
+        hdr[1] = 'ctx%d' % m
+        body += [' '.join(hdr)] + sec[1:]
+    # generated-code lines about context functions are informational; drop the per-function lines whose count no longer matches
+    body += post
+    dd2 = dict(dd)
+    dd2['body'] = body
+    dd2['contexts_renamed'] = True
+    return dd2
 
 
 def parse_dump_dfa(body, tag):
